@@ -29,6 +29,8 @@ type c03X struct {
 	Table  []c03Bind  `json:"table"`
 	Input  wire.Bytes `json:"input"`
 	Enter  int        `json:"enter"` // number of setup tokens entering the keymap
+	Local  string     `json:"local,omitempty"` // local keymap that stays active while the input is typed ("" | vi-visual)
+	Core   bool       `json:"core,omitempty"`  // prefix-free table: no bound sequence is a proper prefix of another
 }
 
 const c03Lead = "\x1c"
@@ -36,6 +38,13 @@ const c03Lead = "\x1c"
 func genC03(g *Gen, tier string, idx int) *wire.Scenario {
 	sc := &wire.Scenario{Prop: "C03", Family: "dispatch"}
 	x := c03X{Keymap: Pick(g, []string{"emacs", "emacs", "vi-insert", "vi-command", "vi-command"})}
+	// Half of the scenarios use prefix-free tables (the pinned tree dispatches those correctly: a
+	// violation there is new and named apart), and a third of these type the input while the
+	// vi visual keymap is active: sequences it does not bind fall through to the main keymap.
+	x.Core = idx%2 == 0
+	if x.Core && g.P(35) {
+		x.Keymap, x.Local = "vi-command", "vi-visual"
+	}
 	mode := "emacs"
 	if x.Keymap != "emacs" {
 		mode = "vi"
@@ -51,7 +60,7 @@ func genC03(g *Gen, tier string, idx int) *wire.Scenario {
 	nb := g.Range(1, 8)
 	for len(seqs) < nb {
 		var s string
-		if len(seqs) > 0 && g.P(55) {
+		if len(seqs) > 0 && g.P(55) && !x.Core {
 			s = seqs[g.N(len(seqs))] + Pick(g, alpha) // extend an existing one: prefix overlap
 		} else {
 			s = c03Lead
@@ -59,7 +68,15 @@ func genC03(g *Gen, tier string, idx int) *wire.Scenario {
 				s += Pick(g, alpha)
 			}
 		}
-		if len(s) > 6 || seen[s] {
+		overlap := false
+		if x.Core {
+			for _, t := range seqs {
+				if strings.HasPrefix(s, t) || strings.HasPrefix(t, s) {
+					overlap = true
+				}
+			}
+		}
+		if len(s) > 6 || seen[s] || overlap {
 			if len(seen) > 40 {
 				break
 			}
@@ -71,7 +88,7 @@ func genC03(g *Gen, tier string, idx int) *wire.Scenario {
 	}
 	for i, s := range seqs {
 		b := c03Bind{Seq: wire.Bytes(s), Probe: i % 10}
-		if g.P(15) {
+		if g.P(15) && !x.Core {
 			// a macro whose body is another bound sequence or plain keys
 			b.Probe = -1
 			if g.P(60) && len(seqs) > 1 {
@@ -92,6 +109,15 @@ func genC03(g *Gen, tier string, idx int) *wire.Scenario {
 		neutral = append(neutral, "a")
 	}
 	for in.Len() < 8 {
+		if x.Core {
+			// whole bound sequences and neutral keys only: the plainest claim of the statement
+			if g.P(75) {
+				in.WriteString(Pick(g, seqs))
+			} else {
+				in.WriteString("b")
+			}
+			continue
+		}
 		switch g.N(6) {
 		case 0, 1, 2:
 			in.WriteString(Pick(g, seqs))
@@ -105,12 +131,15 @@ func genC03(g *Gen, tier string, idx int) *wire.Scenario {
 		}
 	}
 	x.Input = wire.Bytes(in.String())
-	if len(x.Input) > 12 {
+	if len(x.Input) > 12 && !x.Core {
 		x.Input = x.Input[:12]
 	}
 	// enter the keymap
 	if x.Keymap == "vi-command" {
 		sc.Script = append(sc.Script, tok("z", "self-insert"), tok("z", "self-insert"), tok("\x1b", "vi-movement-mode"))
+	}
+	if x.Local == "vi-visual" {
+		sc.Script = append(sc.Script, tok("v", "vi-visual-mode"))
 	}
 	x.Enter = len(sc.Script)
 	for _, b := range []byte(x.Input) {
@@ -333,12 +362,12 @@ func execC03(x *Ctx, sc *wire.Scenario) *wire.Result {
 		return res
 	}
 	// keymap must still be the one under test at the end (a default command may have switched it)
-	if out.FinalSnap == nil || out.FinalSnap.Main != xx.Keymap || out.FinalSnap.Local != "" {
+	if out.FinalSnap == nil || out.FinalSnap.Main != xx.Keymap || out.FinalSnap.Local != xx.Local {
 		res.Counters["skipped:keymap_changed"]++
 		return res
 	}
 	for _, w := range out.Waits {
-		if w.Kind != "main" || (w.Tokens >= xx.Enter && (w.Main != xx.Keymap || w.Local != "")) {
+		if w.Kind != "main" || (w.Tokens >= xx.Enter && (w.Main != xx.Keymap || w.Local != xx.Local)) {
 			res.Counters["skipped:keymap_changed"]++
 			return res
 		}
@@ -400,7 +429,15 @@ func execC03(x *Ctx, sc *wire.Scenario) *wire.Result {
 				macro = ":with-macro"
 			}
 		}
-		return violation(res, "MISMATCH", "C03.dispatch-matches-reference", "dispatch:"+cls+macro+":"+xx.Keymap,
+		batch := ""
+		if xx.Core {
+			batch = "prefix-free:"
+		}
+		km := xx.Keymap
+		if xx.Local != "" {
+			km += "+" + xx.Local
+		}
+		return violation(res, "MISMATCH", "C03.dispatch-matches-reference", batch+"dispatch:"+cls+macro+":"+km,
 			fmt.Sprintf("keymap %s, binds %v, typed %q: probes fired %v; the reference accepts %v", xx.Keymap, tbl, string(xx.Input), log, alts))
 	}
 	// no probe may fire while the keys typed so far are only a proper prefix (judged under one-byte-per-read)
